@@ -158,6 +158,13 @@ impl Ctx {
             t.extend(unhex(ext)?);
             return Some(t);
         }
+        // `<spec>^<hex>`: the id `<spec>` stands for with its leading bytes XOR-ed: same length, same low
+        // bytes, an action prefix far outside anything the node ever allocates
+        if let Some((base, x)) = spec.split_once('^') {
+            let mut t = self.resolve_tid(base)?;
+            for (i, b) in unhex(x)?.iter().enumerate() { if i < t.len() { t[i] ^= *b; } }
+            return Some(t);
+        }
         if let Some(h) = spec.strip_prefix('x') {
             return unhex(h);
         }
@@ -508,7 +515,7 @@ impl Engine for HandlerEngine {
                 }
                 14..=15 => {
                     // unsolicited responses: raw ids, the refresh prefix
-                    let rt = match rng.below(6) { 0 | 1 => "R~fresh".to_string(), 2 => { let l = *rng.pick(&[1usize, 1, 2, 8]); format!("R~fresh+{}", hex(&rng.bytes(l))) } _ => tid.clone() };
+                    let rt = match rng.below(7) { 0 | 1 => "R~fresh".to_string(), 2 => { let l = *rng.pick(&[1usize, 1, 2, 8]); format!("R~fresh+{}", hex(&rng.bytes(l))) } 3 => format!("R~fresh^{}", *rng.pick(&["01", "0001", "c000"])), _ => tid.clone() };
                     let nodes: Vec<String> = (0..rng.below(4)).map(|_| format!("{}@{}", if rng.chance(1, 6) { hex(&me) } else { hex(&rng.bytes(20)) }, gen_addr(rng, false, pool))).collect();
                     ops.push(format!("in {rt} {src} r id={sid} values=- nodes={} nodes6=- token=none @{t}", if nodes.is_empty() { "-".into() } else { nodes.join(";") }));
                 }
@@ -1015,7 +1022,11 @@ async fn run_scenario(ctx: &mut Option<Ctx>, req: &str, case: usize, out: &mut V
                     let (jn, jn6) = if v6 { ("nodes=-".to_string(), format!("nodes6={}", nodes_field(&junk_nodes))) } else { (format!("nodes={}", nodes_field(&junk_nodes)), "nodes6=-".to_string()) };
                     let forged_vals = format!("{};{}", gen_addr(&mut rng, false, 900), gen_addr(&mut rng, false, 900));
                     let at = t + lat(&mut rng);
-                    match rng.below(16) {
+                    match rng.below(18) {
+                        // an outstanding id / the refresh prefix with its two leading bytes altered: 8 bytes, but an
+                        // action prefix the node never used (round-4 seed C12: only the low bytes were compared)
+                        16 => events.push((at, format!("in #{k}^{} {other_src} r id={} values={forged_vals} {jn} {jn6} token={}", *rng.pick(&["01", "0001", "8000", "ff01"]), hex(&rng.bytes(20)), hex(&rng.bytes(4))))),
+                        17 => events.push((at, format!("in R~fresh^{} {other_src} r id={} values={forged_vals} {jn} {jn6} token=none", *rng.pick(&["01", "0001", "8000"]), hex(&rng.bytes(20))))),
                         // the node answers its own query and, a moment later, a query the search sent to somebody
                         // else (the handler does not tie an id to the node it was sent to) with another token:
                         // the announce has to carry the latest one (round-3 seed C03)
